@@ -355,6 +355,7 @@ func (x *runner) ibbEmit(run *ibbRun, acts []ibbAction, note string) {
 
 func (x *runner) ibbFinish(run *ibbRun, acts []ibbAction, class string) {
 	run.finish()
+	x.noteSlow("ibb", run.failed, run.failWhat)
 	cc := ibbCase{Mode: "ibb", Actions: acts}
 	canon, _ := json.Marshal(cc)
 	cls := []string{"ibb/" + class}
@@ -371,6 +372,9 @@ func (x *runner) ibbFinish(run *ibbRun, acts []ibbAction, class string) {
 }
 
 func (x *runner) ibbReplay(acts []ibbAction, class string) {
+	if x.skip("ibb") && class != "replay" {
+		return
+	}
 	run, err := newIbbRun()
 	if err != nil {
 		x.res.Fail("C06/harness/setup", err.Error(), nil)
@@ -386,6 +390,9 @@ func (x *runner) ibbReplay(acts []ibbAction, class string) {
 }
 
 func (x *runner) ibbWalk(r *hx.Rand, steps int) {
+	if x.skip("ibb") {
+		return
+	}
 	run, err := newIbbRun()
 	if err != nil {
 		x.res.Fail("C06/harness/setup", err.Error(), nil)
